@@ -119,11 +119,11 @@ def gen(ctx):
     thorough = ctx.tier == "thorough"
     R = []
 
-    def add(name, kind, cont, sets, late=(), ch=None, sr=None, sub=None):
+    def add(name, kind, cont, sets, late=(), ch=None, sr=None, sub=None, frames=None):
         ch = ch or rng.choice([1, 2, 2, 6])
         sr = sr or rng.choice([8000, 11025, 44100, 48000, 96000])
         sub = sub or rng.choice(SUBS)
-        R.append((name, kind, M.mk_script(cont, sets, ch=ch, sr=sr, late=late, sub=sub, frames=rng.choice([1, 4, 9]))))
+        R.append((name, kind, M.mk_script(cont, sets, ch=ch, sr=sr, late=late, sub=sub, frames=frames or rng.choice([1, 4, 9]))))
 
     strconts = ("wav", "wavex", "rf64", "rifx", "aiff", "caf")
     # 1. strings: every length class, every type, UTF-8, orders, replacement before the audio
@@ -215,6 +215,10 @@ def gen(ctx):
             if k == "bext-first" and cont in M.BEXT_SUPPORT:
                 continue        # a bext block exists already: that is the late-grow class below
             add("late-%s-%s" % (cont, k), "late", cont, base, late=ops, ch=2)
+        # an odd number of audio bytes (pad byte before the trailing chunks) and a long audio section
+        add("late-%s-str-odd" % cont, "late", cont, base, late=[S(5, b"a late comment"), S(2, b"(c) late")], ch=1, sub=3, frames=rng.choice([1, 3, 5, 7]))
+        add("late-%s-str-odd-only" % cont, "late", cont, [], late=[S(1, b"late title")], ch=1, sub=3, frames=rng.choice([1, 3, 5, 7]))
+        add("late-%s-str-long" % cont, "late", cont, base, late=[S(5, b"a late comment")], ch=2, sub=2, frames=rng.choice([500, 2047, 4096]))
         # every kind on a container without a place for it, before the audio
         add("unsup-%s" % cont, "unsupported", cont, base + [bext_cmd(rng, b"x\n"), cart_cmd(rng, b"y"), M.setcues_line("h0", cues(rng, 2)) if cont not in ("aiff",) else S(1, b"Title"),
                                                             chmap_cmd((2, 3))] + [S(ty, b"v%d" % ty) for ty in (6, 7, 8, 9, 16)], ch=2)
@@ -403,6 +407,8 @@ def run(ctx):
         ctx.count(1, tag="%s-%s" % (kind, s.cont))
         ctx.coverage["traces_validated_against_impl"] += 1
         kinds[kind] = kinds.get(kind, 0) + 1
+        if getattr(s, "late_ignored", 0):
+            ctx.notes.setdefault("late_strings_accepted_but_not_returned", []).append(name)
         per_cont[s.cont] = per_cont.get(s.cont, 0) + 1
         unw = []
         for f in F:
